@@ -10,9 +10,16 @@ def _(aes_random: "bytes"):
     domain(aes_random=bytes_(alphabet=b"\x00\xff", maxlen=2) + [{"bytes": list(range(16))}])
 
 
-@contract("dissect.cobaltstrike.c2:BeaconKeys.from_aes_rand", props=["C06"])
+@contract("dissect.cobaltstrike.c2:BeaconKeys.from_aes_rand", props=["C06", "C05", "C07"])
 def _(cls: "class:dissect.cobaltstrike.c2:BeaconKeys", aes_rand: "bytes", iv: "bytes"):
+    """the session keys are derived from the random bytes and carry the CONFIGURED initialisation vector"""
     ensures(result.aes_key == sha256(aes_rand)[:16], result.hmac_key == sha256(aes_rand)[16:], result.iv == iv)
+    returns("record[BeaconKeys]")
+
+
+@contract("dissect.cobaltstrike.c2:BeaconKeys.from_beacon_metadata", props=["C06", "C05", "C07"])
+def _(cls: "class:dissect.cobaltstrike.c2:BeaconKeys", metadata: "cstruct:dissect.cobaltstrike.c_c2:c2struct:BeaconMetadata", iv: "bytes"):
+    ensures(result.aes_key == sha256(metadata.aes_rand)[:16], result.hmac_key == sha256(metadata.aes_rand)[16:], result.iv == iv)
     returns("record[BeaconKeys]")
 
 
